@@ -20,7 +20,7 @@ ASSUMPTIONS = [
     "point masses are placed at the spanwise station of a structural node (the inverse-distance spreading of OAS otherwise leaks a 1e-7 share across the symmetry plane)",
     "coupled solvers tightened to rtol 1e-13 (user-level setting); OpenMDAO/NumPy/SciPy trusted",
 ]
-BOUND = {"quick": "nx<=3, half ny in {3}, aerostruct: tube+wingbox x 4 load options", "thorough": "nx<=4, half ny in {3,4}, all load-option combinations"}
+BOUND = {"quick": "nx<=3 (+ one planform with nx=4), half ny in {3}, aerostruct: tube+wingbox x 4 load options", "thorough": "nx<=4, half ny in {3,4}, all load-option combinations"}
 TOL_A = 1e-9
 TOL_S = 1e-7
 
@@ -32,7 +32,11 @@ def states(tier, seed):
     nxs = [2, 3] if tier == "quick" else [2, 3, 4]
     nys = [3] if tier == "quick" else [3, 4]
     sets = ["wing", "wing_tail", "wing_offplane"]
-    for sset, pf, nx, ny, al in itertools.product(sets, pfs, nxs, nys, [5.0, -2.0]):
+    geo = list(itertools.product(sets, pfs, nxs, nys, [5.0, -2.0]))
+    if tier == "quick":
+        # nx = 4 is the smallest mesh with an interior chordwise panel row: one planform per surface set stays in the quick tier
+        geo += [(sset, "twdi", 4, 3, al) for sset in sets for al in (5.0, -2.0)]
+    for sset, pf, nx, ny, al in geo:
         if pf == "camber" and nx < 3:
             continue
         for visc, wave, M, comp, ground, sref in itertools.product([False, True], [False, True], [0.5, 0.84], [False, True], [False, True], ["wetted", "projected"]):
